@@ -41,6 +41,11 @@ type facts struct {
 	ProbeChecksCtxFirst bool
 	ProbeBoundToCtx     bool
 	GracefulSequence    []string
+	ProxyFlushImmediate bool     // AddBackend sets proxy.FlushInterval = -1
+	TransportNoCompress bool     // the backend transport has DisableCompression: true
+	LbWriterMethods     []string // methods responseWriter defines itself (everything else is the embedded writer's)
+	LbWriterForwards    bool     // responseWriter.WriteHeader passes its argument on unchanged
+	HandlerOrder        []string // buildHandler: inside-out composition
 	Problems        []string
 }
 
@@ -197,7 +202,10 @@ func main() {
 	adm := parseDir(filepath.Join(repo, "internal/adminapi"))
 
 	// ResponseWriter wrappers: structs embedding http.ResponseWriter, and their method sets
-	for pkg, files := range map[string]map[string]*ast.File{"loadbalancer": lb, "plugins": pl} {
+	for pkg, files := range map[string]map[string]*ast.File{"loadbalancer": lb, "plugins": pl,
+		"logging": parseDir(filepath.Join(repo, "internal/logging")), "adminapi": adm,
+		"metrics": parseDir(filepath.Join(repo, "internal/metrics")), "main": parseDir(filepath.Join(repo, "cmd/helios")),
+		"utils": parseDir(filepath.Join(repo, "internal/utils")), "proxy": parseDir(filepath.Join(repo, "internal/proxy"))} {
 		types := map[string]bool{}
 		for _, file := range files {
 			ast.Inspect(file, func(n ast.Node) bool {
@@ -460,6 +468,108 @@ func main() {
 		})
 	}
 
+	// C01: ReverseProxy / transport settings and the balancer's own writer
+	if ab := findFunc(lb, "LoadBalancer", "AddBackend"); ab != nil {
+		ast.Inspect(ab, func(n ast.Node) bool {
+			switch v := n.(type) {
+			case *ast.AssignStmt:
+				if len(v.Lhs) == 1 && len(v.Rhs) == 1 {
+					if sel, ok := v.Lhs[0].(*ast.SelectorExpr); ok && sel.Sel.Name == "FlushInterval" {
+						if u, ok := v.Rhs[0].(*ast.UnaryExpr); ok && u.Op == token.SUB {
+							if bl, ok := u.X.(*ast.BasicLit); ok && bl.Value == "1" {
+								f.ProxyFlushImmediate = true
+							}
+						}
+					}
+				}
+			case *ast.KeyValueExpr:
+				if id, ok := v.Key.(*ast.Ident); ok && id.Name == "DisableCompression" {
+					if val, ok := v.Value.(*ast.Ident); ok && val.Name == "true" {
+						f.TransportNoCompress = true
+					}
+				}
+			}
+			return true
+		})
+	} else {
+		f.Problems = append(f.Problems, "LoadBalancer.AddBackend not found")
+	}
+	for _, file := range lb {
+		for _, d := range file.Decls {
+			if fd, ok := d.(*ast.FuncDecl); ok && recvName(fd) == "responseWriter" {
+				f.LbWriterMethods = append(f.LbWriterMethods, fd.Name.Name)
+				if fd.Name.Name == "WriteHeader" && fd.Type.Params != nil && len(fd.Type.Params.List) == 1 && len(fd.Type.Params.List[0].Names) == 1 {
+					param := fd.Type.Params.List[0].Names[0].Name
+					calls := 0
+					ast.Inspect(fd.Body, func(n ast.Node) bool {
+						if ce, ok := n.(*ast.CallExpr); ok {
+							if sel, ok := ce.Fun.(*ast.SelectorExpr); ok && sel.Sel.Name == "WriteHeader" {
+								calls++
+								if len(ce.Args) == 1 {
+									if id, ok := ce.Args[0].(*ast.Ident); ok && id.Name == param {
+										f.LbWriterForwards = true
+										return true
+									}
+								}
+								f.LbWriterForwards = false
+								calls += 100
+							}
+						}
+						// the parameter must not be reassigned
+						if as, ok := n.(*ast.AssignStmt); ok {
+							for _, l := range as.Lhs {
+								if id, ok := l.(*ast.Ident); ok && id.Name == param {
+									calls += 100
+								}
+							}
+						}
+						return true
+					})
+					if calls != 1 {
+						f.LbWriterForwards = false
+					}
+				}
+			}
+		}
+	}
+	sort.Strings(f.LbWriterMethods)
+	// buildHandler composition, inside out
+	{
+		mp := parseDir(filepath.Join(repo, "cmd/helios"))
+		if bh := findFunc(mp, "", "buildHandler"); bh != nil {
+			ast.Inspect(bh, func(n ast.Node) bool {
+				if as, ok := n.(*ast.AssignStmt); ok && len(as.Rhs) == 1 {
+					switch r := as.Rhs[0].(type) {
+					case *ast.Ident:
+						if r.Name == "lb" {
+							f.HandlerOrder = append(f.HandlerOrder, "lb")
+						}
+					case *ast.CallExpr:
+						txt := ""
+						if sel, ok := r.Fun.(*ast.SelectorExpr); ok {
+							txt = sel.Sel.Name
+						} else if inner, ok := r.Fun.(*ast.CallExpr); ok {
+							if sel, ok := inner.Fun.(*ast.SelectorExpr); ok {
+								txt = sel.Sel.Name
+							}
+						}
+						if txt == "BuildChain" || txt == "RequestContextMiddleware" {
+							f.HandlerOrder = append(f.HandlerOrder, txt)
+						}
+					}
+				}
+				if vs, ok := n.(*ast.ValueSpec); ok && len(vs.Values) == 1 {
+					if id, ok := vs.Values[0].(*ast.Ident); ok && id.Name == "lb" {
+						f.HandlerOrder = append(f.HandlerOrder, "lb")
+					}
+				}
+				return true
+			})
+		} else {
+			f.Problems = append(f.Problems, "buildHandler not found")
+		}
+	}
+
 	// registered plugins
 	for _, file := range pl {
 		ast.Inspect(file, func(n ast.Node) bool {
@@ -526,6 +636,11 @@ func main() {
 	fmt.Fprintf(&sb, "def probeChecksCtxFirst : Bool := %s\n", b(f.ProbeChecksCtxFirst))
 	fmt.Fprintf(&sb, "def probeBoundToCtx : Bool := %s\n", b(f.ProbeBoundToCtx))
 	fmt.Fprintf(&sb, "def gracefulSequence : List String := %s\n", q(f.GracefulSequence))
+	fmt.Fprintf(&sb, "def proxyFlushImmediate : Bool := %s\n", b(f.ProxyFlushImmediate))
+	fmt.Fprintf(&sb, "def transportNoCompress : Bool := %s\n", b(f.TransportNoCompress))
+	fmt.Fprintf(&sb, "def lbWriterMethods : List String := %s\n", q(f.LbWriterMethods))
+	fmt.Fprintf(&sb, "def lbWriterForwards : Bool := %s\n", b(f.LbWriterForwards))
+	fmt.Fprintf(&sb, "def handlerOrder : List String := %s\n", q(f.HandlerOrder))
 	fmt.Fprintf(&sb, "def extractionProblems : List String := %s\n", q(f.Problems))
 	sb.WriteString("\nend Helios.Facts\n")
 	fmt.Print(sb.String())
